@@ -49,17 +49,8 @@ func checkC13(c *Ctx) {
 		c13ShowPath(c, p, t, "C13-R2")
 	}
 	// R3
-	set := map[string]bool{}
-	for _, fn := range p.modFns {
-		if fn.Pkg != p.Tcell {
-			continue
-		}
-		for range callsIn(fn, func(n string, _ *ssa.CallCommon) bool { return strings.HasSuffix(n, "tScreen).writeString") }) {
-			set[fn.Name()] = true
-		}
-	}
-	ws := sortedKeys(set)
-	c.Check(len(ws) == 2 && ws[0] == "Beep" && ws[1] == "drawCell", "C13-R3", "writeString:callers", "-", fmt.Sprintf("callers of the raw writer: %v", ws))
+	ws := payloadWriterCallers(p)
+	c.Check(len(ws) == 2 && ws[0] == "Beep" && ws[1] == "drawCell", "C13-R3", "writeString:callers", "-", fmt.Sprintf("callers of the raw writer: %v (not counted: wrappers that write one expanded capability %v)", ws, textEmitterNames(p)))
 	c13ListCompare(c, p)
 	checkCleanMarkCallers(c, p, "C13-R1")
 	c.asRule("C08-R2", "C13-R7", func() { c08Pairs(c, p, cbMethods(p)) })
@@ -156,7 +147,7 @@ func isTermEmission(in ssa.Instruction) bool {
 		return false
 	}
 	n := calleeName(cc)
-	return strings.HasSuffix(n, "tScreen).TPuts") || strings.HasSuffix(n, "tScreen).writeString") || strings.HasSuffix(n, "tScreen).sendFgBg")
+	return strings.HasSuffix(n, "tScreen).TPuts") || strings.HasSuffix(n, "tScreen).writeString") || strings.HasSuffix(n, "tScreen).sendFgBg") || callsTextEmitter(in)
 }
 
 // isSimEmission: a store into the simulated physical cell (simc.Bytes / Runes / Style).
